@@ -20,7 +20,9 @@ pub fn gen_deprecated(r: &mut Rng) -> Option<Deprecated> {
         Some(Deprecated {
             message: (*r.pick(&["old", "use other", ""])).to_string(),
             replace: if r.chance(1, 2) {
-                vec![(*r.pick(&["new(%1)", "x(%...)", "%%"])).to_string()]
+                (0..r.range(1, 3))
+                    .map(|_| (*r.pick(&["new(%1)", "x(%...)", "%%", "f(%2, %1)", "g(%0)", "h(%3)", "%99999999999", "k(%1", "%", "%.", "m(%01)"])).to_string())
+                    .collect()
             } else {
                 vec![]
             },
